@@ -373,7 +373,14 @@ pub struct StepRec {
     pub post: Result<Post, (i64, String)>,
     /// version of the path / braking points in force (index into RunCtx.envs)
     pub ver: usize,
+    /// the consist before / after the step (recorded only when `record_consists(true)`; C11 full-step cases)
+    pub pre_con: Option<Consist>,
+    pub post_con: Option<Consist>,
 }
+static RECORD_CON: std::sync::atomic::AtomicBool = std::sync::atomic::AtomicBool::new(false);
+/// Switch on/off the recording of the whole consist around every step (costly: one clone per step).
+pub fn record_consists(on: bool) { RECORD_CON.store(on, std::sync::atomic::Ordering::SeqCst); }
+fn rec_con(c: &Consist) -> Option<Consist> { if RECORD_CON.load(std::sync::atomic::Ordering::SeqCst) { Some(c.clone()) } else { None } }
 
 pub struct EnvVer {
     pub env_coq: String,
@@ -470,14 +477,16 @@ fn ss_run_inner(r: &mut Rng, id: String, o: &SsOpts, trunc: Option<bool>) -> Run
         let dt = if i >= 1 && i < times.len() { times[i] - times[i - 1] } else { 1.0 };
         let pre = sim.state; let pre_cache = res_cache(&sim.train_res);
         let cl = peek_consist(&sim.loco_con, &path, pre.offset.value, dt);
+        let pre_con = rec_con(&sim.loco_con);
         let res = catch(std::panic::AssertUnwindSafe(|| sim.step()));
+        let post_con = rec_con(&sim.loco_con);
         let post = match res {
             Ok(Ok(())) => Ok(Post { st: sim.state, cache: res_cache(&sim.train_res), fb: None, idx: 0 }),
             Ok(Err(e)) => Err(train_err_code(&e)),
             Err(p) => Err((-1, p)),
         };
         let failed = post.is_err();
-        ctx.steps.push(StepRec { k, pre, pre_cache, pre_fb: None, pre_idx: 0, cl, post, ver: 0 });
+        ctx.steps.push(StepRec { k, pre, pre_cache, pre_fb: None, pre_idx: 0, cl, post, ver: 0, pre_con, post_con });
         k += 1;
         if failed { return ctx; }
     }
@@ -582,14 +591,16 @@ pub fn sl_run(r: &mut Rng, id: String, o: &SlOpts) -> RunCtx {
         if k >= o.max_steps { ctx.tags.push("run:truncated".into()); break; }
         let pre = sim.state; let pre_cache = res_cache(&sim.train_res); let pre_fb = fb_of(&sim); let pre_idx = braking_idx(&sim);
         let cl = peek_consist(&sim.loco_con, &sim.path_tpc, pre.offset.value, pre.dt.value);
+        let pre_con = rec_con(&sim.loco_con);
         let res = catch(std::panic::AssertUnwindSafe(|| sim.step()));
+        let post_con = rec_con(&sim.loco_con);
         let post = match res {
             Ok(Ok(())) => Ok(Post { st: sim.state, cache: res_cache(&sim.train_res), fb: Some(fb_of(&sim)), idx: braking_idx(&sim) }),
             Ok(Err(e)) => Err(train_err_code(&e)),
             Err(p) => Err((-1, p)),
         };
         let failed = post.is_err();
-        ctx.steps.push(StepRec { k, pre, pre_cache, pre_fb: Some(pre_fb), pre_idx, cl, post, ver: ctx.envs.len() - 1 });
+        ctx.steps.push(StepRec { k, pre, pre_cache, pre_fb: Some(pre_fb), pre_idx, cl, post, ver: ctx.envs.len() - 1, pre_con, post_con });
         k += 1;
         if failed { break; }
     }
